@@ -1225,6 +1225,20 @@ def _register_required_structure_hooks(
         else:
             return converter.structure(object_, lsp_types.NotebookDocumentFilterPattern)
 
+    def _optional_notebook_filter_hook(
+        object_: Any, type_: type
+    ) -> Optional[
+        Union[
+            str,
+            lsp_types.NotebookDocumentFilterNotebookType,
+            lsp_types.NotebookDocumentFilterScheme,
+            lsp_types.NotebookDocumentFilterPattern,
+        ]
+    ]:
+        if object_ is None:
+            return None
+        return _notebook_filter_hook(object_, type_)
+
     NotebookSelectorItem = attrs.fields(
         lsp_types.NotebookCellTextDocumentFilter
     ).notebook.type
@@ -1255,6 +1269,18 @@ def _register_required_structure_hooks(
             _notebook_filter_hook,
         ),
         (NotebookSelectorItem, _notebook_filter_hook),
+        (
+            Optional[
+                Union[
+                    str,
+                    lsp_types.NotebookDocumentFilterNotebookType,
+                    lsp_types.NotebookDocumentFilterScheme,
+                    lsp_types.NotebookDocumentFilterPattern,
+                ]
+            ],
+            _optional_notebook_filter_hook,
+        ),
+        (Optional[Union[str, Sequence[str]]], lambda object_, _type: object_),
         (
             Union[lsp_types.LSPObject, Sequence["LSPAny"], str, int, float, bool, None],
             _lsp_object_hook,
